@@ -29,6 +29,8 @@ def run(ctx) -> None:
     r3_concatenation(ctx)
     r4_resolver(ctx)
     r5_operands_not_consumed(ctx)
+    r6_format_of_cached_pipeline(ctx)
+    r7_finalizers_get_the_list(ctx)
 
 
 def _dominates(prog, fi: FuncInfo, first: list[ast.AST], then: list[ast.AST]) -> bool:
@@ -256,6 +258,67 @@ def r3_concatenation(ctx) -> None:
     r.floor("C14.R3", 6)
 
 
+def r6_format_of_cached_pipeline(ctx) -> None:
+    """The output-format pipeline is the last stage of the combined pipeline: a cached combination belongs to one format."""
+    r, prog = ctx.r, ctx.prog
+    r.rule("C14.R6", "the per-rule converters reuse the combined pipeline only for the output format it was built for: init_processing_pipeline records `output_format or self.default_format`, and the guard in front of every conditional init compares the record with the requested format")
+    ini = prog.func("sigma.conversion.base.Backend.init_processing_pipeline")
+    rec = [n for n in walk_no_nested(ini.node) if isinstance(n, ast.Assign) and isinstance(n.targets[0], ast.Attribute) and unparse(n.targets[0].value) == "self"
+           and unparse(n.value).replace(" ", "") == "output_formatorself.default_format"]
+    attrs = {n.targets[0].attr for n in rec}
+    n = 0
+    for q, f in sorted(prog.funcs.items()):
+        if not q.startswith("sigma.conversion.base.Backend."):
+            continue
+        for c in (x for x in walk_no_nested(f.node) if isinstance(x, ast.Call) and call_name(x) == "self.init_processing_pipeline"):
+            guard = next((a for a in prog.ancestors(c) if isinstance(a, ast.If)), None)
+            loc = f"{f.module.relpath}:{c.lineno}"
+            if guard is None:
+                r.ok("C14.R6", q, "pipeline initialised unconditionally for the requested format", loc)
+                n += 1
+                continue
+            n += 1
+            t = unparse(guard.test).replace(" ", "")
+            compared = [a for a in attrs if a in t and "(output_formatorself.default_format)" in t]
+            if compared:
+                r.ok("C14.R6", q, f"re-initialised when self.{compared[0]} differs from the requested format", loc)
+            else:
+                r.violation("C14.R6", q, short(guard.test, 120),
+                            "the combined pipeline of an earlier call is reused whatever output format is requested now: convert(default) followed by convert_rule(rule, 'test') applies no 'test' pipeline (and the other way round the 'test' pipeline leaks into 'default'), while query finalisation does use the requested format", loc)
+    r.floor("C14.R6", 3)
+
+
+def r7_finalizers_get_the_list(ctx) -> None:
+    """Finalizers are documented to operate on the complete list of generated queries."""
+    r, prog = ctx.r, ctx.prog
+    r.rule("C14.R7", "pipeline finalizers receive the list of queries: in Backend.finalize the argument of last_processing_pipeline.finalize() is the `queries` parameter (or a value every format method returns as a list), not the format-specific collapsed output")
+    f = prog.func("sigma.conversion.base.Backend.finalize")
+    calls = [c for c in walk_no_nested(f.node) if isinstance(c, ast.Call) and call_name(c).endswith("last_processing_pipeline.finalize")]
+    if not calls:
+        raise AnalysisError(f"{f.qual}: call of the pipeline finalizers not found")
+    for c in calls:
+        loc = f"{f.module.relpath}:{c.lineno}"
+        arg = c.args[0] if c.args else None
+        src = unparse(arg) if arg is not None else "?"
+        if src == "queries":
+            r.ok("C14.R7", f.qual, "finalizers run on the list of queries", loc)
+            continue
+        defs = [unparse(v) for v in assignments_to(f.node, src) if isinstance(v, ast.AST)] if isinstance(arg, ast.Name) else [src]
+        if any("finalize_output_" in d for d in defs):
+            # the format methods that do not return a list
+            nonlist = []
+            for q, m in sorted(prog.funcs.items()):
+                if m.cls is not None and m.name.startswith("finalize_output_") and m.module.name.startswith("sigma."):
+                    ann = unparse(m.node.returns) if m.node.returns is not None else "?"
+                    if not ann.startswith(("list", "List")) and ann != "Any":
+                        nonlist.append(f"{m.cls.name}.{m.name} -> {ann}")
+            r.violation("C14.R7", f.qual, short(c, 100) + f"  [{src} = {defs[0][:60]}]",
+                        f"the finalizers are handed the output of the format method; formats that collapse the list ({', '.join(nonlist[:4]) or 'str/bytes/json formats'}) hand them one string: the stock concat finalizer then joins its characters ('m ;; a ;; p …'), json/yaml finalizers dump a single string, bytes + concat raises TypeError", loc)
+        else:
+            r.violation("C14.R7", f.qual, short(c, 100), f"finalizers run on {src}, which is not the query list", loc)
+    r.floor("C14.R7", 1)
+
+
 def r4_resolver(ctx) -> None:
     r, prog = ctx.r, ctx.prog
     r.rule("C14.R4", "the resolver sorts with the total, argument-order-independent key (priority, spec path) — the spec is unique per resolved pipeline — and folds with sum(); an empty list yields an empty pipeline")
@@ -312,7 +375,71 @@ def r4_resolver(ctx) -> None:
         r.violation("C14.R4", f"{b}.{m}", f"def {m}", f"a pipeline defines {m}: a pipeline without transformation items becomes falsy, and the resolver's `sum(...) or ProcessingPipeline()` then replaces a combined pipeline that only carries post-processing items, finalizers or vars by an empty one", prog.classes[b].methods[m].loc)
     else:
         r.ok("C14.R4", PP, "a pipeline object is always truthy (no __bool__/__len__), as the `or ProcessingPipeline()` fallback assumes", f"{pc.module.relpath}:{pc.node.lineno}")
+    _r4_which_pipelines(ctx, f)
     r.floor("C14.R4", 5)
+
+
+def _r4_which_pipelines(ctx, f: FuncInfo) -> None:
+    """resolve() interpreted (sa.tabulate) with stand-ins for the file system and the registry: the combined pipeline consists
+    of exactly the named pipelines, in (priority, spec) order, independent of what the working directory contains."""
+    from collections import namedtuple
+    from functools import reduce
+    from ..tabulate import Interp, Raised
+    r = ctx.r
+
+    class _P:
+        def __init__(self, names, priority=0):
+            self.names, self.priority, self.name = names, priority, None
+
+        def __add__(self, o):
+            return _P(self.names + o.names)
+
+        def __radd__(self, o):
+            return self if o == 0 else _P(o.names + self.names)
+
+    class _Path:
+        DIRS = {"sysmon": [], "rules/pipelines": ["rules/pipelines/a.yml", "rules/pipelines/b.yml"], "": ["cwd.yml"], ".": ["cwd.yml"]}
+
+        def __init__(self, s):
+            self.s = str(s)
+
+        def is_dir(self):
+            return self.s in self.DIRS
+
+        def glob(self, pat):
+            return [_Path(x) for x in self.DIRS.get(self.s, [])]
+
+        def __str__(self):
+            return self.s
+
+    me = type("R", (), {})()
+    me.pipelines = {"sysmon": object(), "custom": object()}
+    prio = {"sysmon": 10, "custom": 20, "rules/pipelines/a.yml": 5, "rules/pipelines/b.yml": 30}
+    me.resolve_pipeline = lambda spec, target=None: _P([spec], prio.get(spec, 50))
+    cases = [(["custom", "sysmon"], ["sysmon", "custom"], "a registered name wins over a directory of the same name in the working directory"),
+             (["custom", "rules/pipelines/"], ["rules/pipelines/a.yml", "custom", "rules/pipelines/b.yml"], "a directory specifier loads the files below it"),
+             (["sysmon", "*"], ["sysmon", "*"], "the specifier '*' is a name, not every file below the working directory"),
+             ([], [], "no specifier, no pipeline")]
+    bad = []
+    for specs, want, what in cases:
+        it = Interp({"self": me, "pipeline_specs": list(specs), "target": None, "namedtuple": namedtuple, "reduce": reduce, "Path": _Path,
+                     "ProcessingPipeline": lambda: _P([])}, max_steps=5000)
+        try:
+            out = it.call(f.node.body)
+        except Raised as ex:
+            bad.append((specs, f"raises {ex}", what))
+            continue
+        except AnalysisError as ex:  # a body the interpreter cannot follow is no verdict
+            r.note(f"C14.R4: resolve() not interpreted for {specs}: {ex}")
+            continue
+        got = list(getattr(out, "names", []))
+        if got != want:
+            bad.append((specs, f"combines {got}, specified {want}", what))
+    if bad:
+        specs, why, what = bad[0]
+        r.violation("C14.R4", f.qual, f"resolve({specs})", f"{why} ({what}; +{len(bad) - 1} more case(s)): which pipelines are combined depends on the contents of the working directory, and resolve() disagrees with resolve_pipeline()", f.loc)
+    else:
+        r.ok("C14.R4", f.qual, f"resolve() interpreted on {len(cases)} specifier lists: exactly the named pipelines, registered names before directories", f.loc)
 
 
 def r5_operands_not_consumed(ctx, rid: str = "C14.R5", skip_clear: bool = False) -> None:
